@@ -11,8 +11,8 @@ CONSTANTS
   B1s = {3, 13}
   Empties = TRUE
   Bufs = {"fresh"}
-  ChCfgs <- ChTwo
-  TagCfgs <- TagTwo
+  ChCfgs = {"c2"}
+  TagCfgs = {"def"}
   Rates <- RatesOne
   Sample = FALSE
   Emit = FALSE
